@@ -70,5 +70,5 @@ Contract ==
   phase = "ret" =>
     LET s0 == [init EXCEPT !.mark = MarkOf(init)]
         r  == RunTrap(s0, 2500)
-    IN r.ok /\ TrapContract(r.st, vect, PromptAddr) = {}
+    IN r.ok /\ TrapContract(r.st, vect, PromptAddr, -1) = {}
 =============================================================================
